@@ -106,13 +106,13 @@ def merged(ctx, tag, lists):
 def sequential(ctx, q):
     inv = ["Inv_ShowsPure", "Inv_RenderPure", "Inv_CacheAgree"]
     props = ["Act_Local", "Act_ReadersPure", "Act_ValuesImmutable"]
-    ctx.tlc_mc("Engine_MC.tla", mc_cfg(ctx, "mc_ref.cfg", "ref", "PoolQuick", 3 if q else 4, inv, props), timeout=600)
+    ctx.tlc_mc("Engine_MC.tla", mc_cfg(ctx, "mc_ref.cfg", "ref", "PoolCore" if q else "PoolQuick", 3 if q else 4, inv, props), timeout=900)
     # as-built variant: base shows the child's block after two loads, a sibling after three
     expect_violation(ctx, "Engine_MC.tla", mc_cfg(ctx, "mc_built_inv.cfg", "built", "PoolTiny", 3, ["Inv_ShowsPure"], []), "Inv_ShowsPure")
     if not q:
         expect_violation(ctx, "Engine_MC.tla", mc_cfg(ctx, "mc_built_act.cfg", "built", "PoolTiny", 3, [], ["Act_Local"]), "Act_Local")
 
-    core = dict(pool="PoolCore", kinds=["Load", "Render", "Remove", "Clear"], argnames=["base", "A"], entries=["doc"])
+    core = dict(pool="PoolCore", kinds=["Load", "Render", "Remove", "Clear"], argnames=["A"] if q else ["base", "A"], entries=["doc"])
     wide = dict(pool="PoolQuick" if q else "PoolThorough", kinds=["Load", "Render", "Remove", "Clear"] if q else sorted(ALLK),
                 argnames=sorted(NAMES), entries=["doc", "tpl"])
     plans = [("bfs-core", core, 4 if q else 5), ("bfs-wide", wide, 2 if q else 3)]
@@ -122,7 +122,7 @@ def sequential(ctx, q):
     ctx.exhaustive = True
     d = 8 if q else 14
     lists.append(ctx.tlc_gen("Engine_MC.tla", gen_cfg(ctx, "gen_sim.cfg", "PoolThorough", sorted(ALLK), sorted(NAMES), ["doc", "tpl"], d),
-                             "sim", mode="sim", num=25 if q else 400, depth=d + 2))
+                             "sim", mode="sim", num=15 if q else 400, depth=d + 2))
     judge(ctx, ctx.run_exec("engine", merged(ctx, "seq", lists), "seq"), "seq")
     ctx.extra_cov["sequential_bounds"] = {"bfs_core_depth": plans[0][2], "bfs_wide_depth": plans[1][2], "sim_depth": d,
                                           "behaviours": {"bfs_core": len(lists[0]), "bfs_wide": len(lists[1]), "sim": len(lists[2])},
@@ -167,8 +167,13 @@ def concurrent(ctx, q):
 
 def run(ctx):
     q = ctx.tier == "quick"
-    sequential(ctx, q)
-    concurrent(ctx, q)
+    part = os.environ.get("WZ_C17_PART", "")      # development aid: "seq" or "conc" runs only that half
+    if part in ("", "seq"):
+        sequential(ctx, q)
+    if part in ("", "conc"):
+        concurrent(ctx, q)
+    if part:
+        ctx.assumptions.append("partial run (WZ_C17_PART=%s)" % part)
     return ctx.finish(LEVEL, RULE)
 
 
